@@ -33,12 +33,30 @@ import (
 // storeMmemoizer implements the memoization.
 type storeMemoizer struct {
 	s storage.Store
+
+	// One memoizer per graph, shared by all the handles returned for it, so an
+	// update through one handle also resets what the other handles memoized.
+	mu     sync.Mutex
+	graphs map[string]*graphMemoizer
 }
 
 // New returns a new memoized driver.
 func New(s storage.Store) storage.Store {
 	return &storeMemoizer{
-		s: s,
+		s:      s,
+		graphs: make(map[string]*graphMemoizer),
+	}
+}
+
+// newGraphMemoizer wraps the provided graph with an empty memoizer.
+func newGraphMemoizer(g storage.Graph) *graphMemoizer {
+	return &graphMemoizer{
+		g:    g,
+		memN: make(map[string][]*node.Node),
+		memP: make(map[string][]*predicate.Predicate),
+		memO: make(map[string][]*triple.Object),
+		memT: make(map[string][]*triple.Triple),
+		memE: make(map[string]bool),
 	}
 }
 
@@ -59,14 +77,11 @@ func (s *storeMemoizer) NewGraph(ctx context.Context, id string) (storage.Graph,
 	if err != nil {
 		return nil, err
 	}
-	return &graphMemoizer{
-		g:    g,
-		memN: make(map[string][]*node.Node),
-		memP: make(map[string][]*predicate.Predicate),
-		memO: make(map[string][]*triple.Object),
-		memT: make(map[string][]*triple.Triple),
-		memE: make(map[string]bool),
-	}, nil
+	gm := newGraphMemoizer(g)
+	s.mu.Lock()
+	s.graphs[id] = gm
+	s.mu.Unlock()
+	return gm, nil
 }
 
 // Graph returns an existing graph if available. Getting a non existing
@@ -76,20 +91,26 @@ func (s *storeMemoizer) Graph(ctx context.Context, id string) (storage.Graph, er
 	if err != nil {
 		return nil, err
 	}
-	return &graphMemoizer{
-		g:    g,
-		memN: make(map[string][]*node.Node),
-		memP: make(map[string][]*predicate.Predicate),
-		memO: make(map[string][]*triple.Object),
-		memT: make(map[string][]*triple.Triple),
-		memE: make(map[string]bool),
-	}, nil
+	s.mu.Lock()
+	defer s.mu.Unlock()
+	gm, ok := s.graphs[id]
+	if !ok {
+		gm = newGraphMemoizer(g)
+		s.graphs[id] = gm
+	}
+	return gm, nil
 }
 
 // DeleteGraph deletes an existing graph. Deleting a non existing graph
 // should return an error.
 func (s *storeMemoizer) DeleteGraph(ctx context.Context, id string) error {
-	return s.s.DeleteGraph(ctx, id)
+	if err := s.s.DeleteGraph(ctx, id); err != nil {
+		return err
+	}
+	s.mu.Lock()
+	delete(s.graphs, id)
+	s.mu.Unlock()
+	return nil
 }
 
 // GraphNames returns the current available graph names in the store.
